@@ -142,3 +142,28 @@ Definition listed_paths (fs : node) (pkg p : path) : bool :=
   let rel := skipn (length pkg) p in
   is_prefix pkg p && negb (list_empty rel) && isfile fs p && py_module_fname (basename p)
   && inits_down fs pkg rel.
+
+(* the same with with_pkg=True (what the -p selection lists): the __init__.py files of the
+   package and of its sub-packages are listed as well, i.e. every .py file whose every
+   directory from the package down to its own has an __init__.py *)
+Definition py_fname (f : name) : bool := String.eqb (snd (splitext f)) ".py".
+
+Definition listed_paths_pkg (fs : node) (pkg p : path) : bool :=
+  let rel := skipn (length pkg) p in
+  is_prefix pkg p && negb (list_empty rel) && isfile fs p && py_fname (basename p)
+  && inits_down fs pkg rel.
+
+(* the dotted name, below the package's own name, of a file at rel inside the package:
+   sub/__init__.py is the sub-package sub, sub/m.py the module sub.m *)
+Definition relname (rel : list name) : list name :=
+  if String.eqb (last rel EmptyString) INIT then removelast rel
+  else removelast rel ++ [fst (splitext (last rel EmptyString))].
+
+(* names of files inside a package that the naming theorems cover: dot-free directory
+   names, file name <identifier>.py *)
+Definition nice_rel (rel : list name) : bool :=
+  negb (list_empty rel) && forallb name_ok (removelast rel)
+  && match rsplit_dot1 (last rel EmptyString) with
+     | Some (st, e) => name_ok st && String.eqb e ".py"
+     | None => false
+     end.
